@@ -663,7 +663,8 @@ def describe(c):
         if how:
             parts.append(("%s=" % nme if how == "kw" else "") + "<%s>" % (c[nme] if c[nme] in ("None", "inf", "-inf")
                                                                           else c.get("spell", {}).get(nme, "frac")))
-    return "%s(%s)" % (head, ", ".join(parts))
+    reuse = c.get("reuse", "fresh")
+    return "%s(%s)%s" % (head, ", ".join(parts), "" if reuse == "fresh" else " [callable used before: %s]" % reuse)
 
 
 def shape_key(c):
